@@ -10,10 +10,11 @@ from .visualisation.dimensionality_reduction import DimensionalityReducer
 def get_individual_id(individual: Individual) -> str:
     """
     Tree structure in `treelib` requires identifiers for nodes. This function returns
-    the individual's uuid: the string representation of a genome only shows 8 significant digits,
-    so distinct individuals of a converged population would share an identifier and be dropped.
+    the identity of the individual object: the string representation of a genome only shows 8 significant
+    digits (distinct individuals of a converged population would share an identifier and be dropped),
+    and individuals made with `Individual.clone()` share the uuid of their source.
     """
-    return str(individual.uuid)
+    return str(id(individual))
 
 
 class NearestBetterClustering:
